@@ -104,6 +104,8 @@ static void decode_spec(struct tape *t, struct gm_spec *g)
 	g->payload_mode = (uint8_t)t_choice(t, 4);
 	g->n_rules = (uint8_t)(2 + t_choice(t, 7));
 	g->hb_scale = (uint8_t[]){1, 1, 20, 100, 1, 7}[t_choice(t, 6)];
+	g->chain_len = (uint8_t[]){0, 0, 12, 60, 200, 0, 30, 5}[t_choice(t, 8)];
+	g->chain_start = (uint8_t[]){0, 255, 60, 160}[t_choice(t, 4)];
 	for(unsigned r = 0; r < g->n_rules; r++) {
 		struct gm_rule *ru = &g->rules[r];
 		ru->n_act = (uint8_t)(1 + t_choice(t, 4));
@@ -130,6 +132,19 @@ static void decode_spec(struct tape *t, struct gm_spec *g)
 					g->rules[r].act[a].kind = GA_MEM;
 		}
 	unsigned goal_base = (unsigned[]){20, 5, 60, 150}[t_choice(t, 4)];
+	/* scenario preset "tick chains" (about one case in six): integer ticks, every LP starts a long zero-delay chain at its
+	 * tick, goals large enough that the LPs stay active - many events share a timestamp on different threads, GVT values
+	 * coincide with event timestamps, and what is committed at exactly the GVT matters */
+	RT.preset = t_choice(t, 6) == 5;
+	if(RT.preset && !c10 && !c07 && !c08) {
+		g->time_mode = 1;
+		g->chain_len = (uint8_t[]){30, 60, 200, 12}[t_choice(t, 4)];
+		g->chain_start = (uint8_t[]){255, 160}[t_choice(t, 2)];
+		g->hb_scale = 1;
+		goal_base = (unsigned[]){150, 60}[t_choice(t, 2)];
+		if(g->n_lps < 3)
+			g->n_lps = 3 + t_choice(t, 6);
+	}
 	for(unsigned i = 0; i < g->n_lps; i++) {
 		unsigned m = (3 + t_choice(t, c07 ? 6 : 12)) % (c07 ? 6 : 12); /* exhausted tape: an ordinary goal */
 		if(m == 0)
@@ -166,7 +181,7 @@ static void decode_cfg(struct tape *t, struct rt_cfg *c, const struct gm_spec *g
 	c->n_threads = 1 + (1 + t_choice(t, 8)) % 8; /* exhausted tape: 2 threads */
 	if(t_prob(t, 40))
 		c->n_threads = g->n_lps + 1 + t_choice(t, 3) > 8 ? 8 : g->n_lps + 1 + t_choice(t, 3); /* more threads than LPs */
-	c->ckpt_interval = (unsigned[]){0, 1, 2, 3, 5, 8, 64, 2}[t_choice(t, 8)];
+	c->ckpt_interval = (unsigned[]){0, 1, 2, 3, 5, 8, 64, 1}[t_choice(t, 8)];
 	c->gvt_period = (unsigned[]){100, 0, 1, 10, 1000, 30, 100, 10}[t_choice(t, 8)];
 	c->core_binding = t_prob(t, 30);
 	c->termination_time = 0;
@@ -197,6 +212,13 @@ static void decode_cfg(struct tape *t, struct rt_cfg *c, const struct gm_spec *g
 	c->sched.budget = 20000000ULL;
 	c->sched.noprogress = getenv("RSV_NOPROGRESS") ? strtoull(getenv("RSV_NOPROGRESS"), NULL, 10) : 600000ULL;
 	c->sched.free_perturb_per_1024 = (unsigned[]){0, 20, 200}[t_choice(t, 3)];
+	if(RT.preset && !c10 && !c07 && !c08) {
+		c->ckpt_interval = (unsigned[]){1, 1, 2, 3}[t_choice(t, 4)];
+		c->sched.batch = (unsigned[]){1, 2, 3, 8}[t_choice(t, 4)];
+		c->gvt_period = (unsigned[]){0, 1, 10}[t_choice(t, 3)];
+		if(c->n_threads < 2)
+			c->n_threads = 2 + t_choice(t, 3);
+	}
 	c->ranks = 1;
 #ifdef RSV_E4
 	c->mode = c->sched.mode = RSV_MODE_DET; /* the in-process MPI is only defined under the baton scheduler */
@@ -293,8 +315,8 @@ int rsv_case(const uint8_t *tape, size_t len, struct rsv_result *res)
 	res->cls[K_STOP_RUNS] = g->stop_lp >= 0;
 	res->cls[K_TT_RUNS] = c->termination_time != 0;
 
-	rsv_sample(res, "lps=%u seed=%llu time=%u la=%u zd=%u sp=%u dest=%u pl=%u rules=%u hb=%u goals=[", g->n_lps, (unsigned long long)g->seed,
-	    g->time_mode, g->lookahead_mode, g->zero_delay, g->send_prob, g->dest_mode, g->payload_mode, g->n_rules, g->hb_scale);
+	rsv_sample(res, "lps=%u seed=%llu time=%u la=%u zd=%u sp=%u dest=%u pl=%u rules=%u hb=%u chain=%u/%u goals=[", g->n_lps, (unsigned long long)g->seed,
+	    g->time_mode, g->lookahead_mode, g->zero_delay, g->send_prob, g->dest_mode, g->payload_mode, g->n_rules, g->hb_scale, g->chain_len, g->chain_start);
 	for(unsigned i = 0; i < g->n_lps && i < 12; i++)
 		rsv_sample(res, "%s%u%s", i ? "," : "", g->goal[i], g->t0_zero[i] ? "@0" : "");
 	rsv_sample(res, "] stop=(%d,%u) | ranks=%u net=%u/%u/%u/%u | %s thr=%u ckpt=%u gvt=%u tt=%g bind=%d stats=%d seed=%llu | sched seed=%llu sw=%u burst=%u/%u hot=%#x div=%u batch=%u | ref ev=%zu",
